@@ -168,6 +168,7 @@ where
             let body = body.lock().unwrap().take().expect("single execution");
             rt::set_in_sim(true);
             let r = catch_unwind(AssertUnwindSafe(body));
+            rt::sync::flush_wakeups();
             rt::note_steps(shuttle::current::context_switches() as u64);
             rt::set_in_sim(false);
             let r = r.map_err(|e| {
